@@ -26,7 +26,11 @@ async def _run(self: Any, *a: Any, **kw: Any) -> Any:
     LIVE["max"][rid] = max(LIVE["max"].get(rid, 0), n)
     if n > 1:
         LIVE["overlaps"].append((rid, n))
-    LIVE["log"].append(("loop_start", rid))
+    import time as _t0
+
+    from vmc.loop import BASE_WALL as _BW
+
+    LIVE["log"].append(("loop_start", rid, _t0.time() - _BW))
     try:
         return await _orig_run(self, *a, **kw)
     finally:
